@@ -60,7 +60,10 @@ def run(ctx):
         if obs and (len(res) != obs["len"] or int(res.ones()) != obs["ones"] or int(res.zeros()) != obs["zeros"] or res.len() != obs["len"]):
             ctx.violation(key + ":observers", "len/ones/zeros disagree with the spec", ev)
 
+    nrep = [0]
+
     def replay(ev):
+        nrep[0] += 1
         last, heap = ev["last"], ev["heap"]
         op, args, raised = last["op"], last["args"], last["raised"]
         if op == "init":
@@ -85,6 +88,12 @@ def run(ctx):
                 elif op == "rconcatlit":
                     key += ":" + args[1]
                     res = payload(args[1], args[2]) + objs[args[0] - 1]
+                elif op in ("concat2d", "rconcat2d"):
+                    row = [TOK[t] for t in args[1]]
+                    two = [row, row] if nrep[0] % 2 else np.array([row, row])
+                    if op == "rconcat2d" and not isinstance(two, list):
+                        two = [row, row]
+                    res = (objs[args[0] - 1] + two) if op == "concat2d" else (two + objs[args[0] - 1])
                 elif op == "invert":
                     res = ~objs[args[0] - 1]
                 elif op == "slice":
